@@ -3,6 +3,7 @@ package main
 import (
 	"encoding/json"
 	"flag"
+	"fmt"
 	"math/rand"
 	"os"
 	"reflect"
@@ -224,6 +225,55 @@ func pathsReplay(args []string) int {
 				continue
 			}
 			rep.classify(raw, c.Exp.Ideal, c.Exp.Alts, eq, func() interface{} { return out }, "paths/"+variant)
+		}
+		// ... and where a LIST is read: a config made from a slice of four entries (alone, or under the name k) is read
+		// through the spelling - it addresses an entry iff it is an index under the options of the call; any other
+		// spelling is an ordinary name, which a list does not have
+		if (c.Pos == "single" || c.Pos == "last") && !c.Br {
+			sp := c.Key[len(c.Key)-1]
+			if sp.S != "" {
+				name := sp.S
+				var in interface{} = []interface{}{"e0", "e1", "e2", "e3"}
+				if c.Pos == "last" {
+					name = "k." + sp.S
+					in = map[string]interface{}{"k": in}
+				}
+				ropts := []ucfg.Option{ucfg.PathSep("."), ucfg.MaxIdx(c.MaxIdx), ucfg.EnableNumKeys(c.NumKeys)}
+				if c.Esc {
+					ropts = append(ropts, ucfg.EscapePath())
+				}
+				var got string
+				panicked, msg := guard(func() {
+					cfg, err := ucfg.NewFrom(in, ucfg.PathSep("."))
+					if err != nil {
+						got = "build: " + err.Error()
+						return
+					}
+					s, err := cfg.String(name, -1, ropts...)
+					has, herr := cfg.Has(name, -1, ropts...)
+					switch {
+					case err != nil && !has && herr == nil:
+						got = "missing"
+					case err == nil && has && herr == nil:
+						got = s
+					default:
+						got = fmt.Sprintf("String: %q %v / Has: %v %v", s, err, has, herr)
+					}
+				})
+				if panicked {
+					got = "panic: " + msg
+				}
+				want := "missing"
+				if c.IsIndex && sp.Val >= 0 && sp.Val <= 3 {
+					want = "e" + strconv.FormatInt(sp.Val, 10)
+				}
+				if got != want {
+					rep.violate("paths/list-read", raw, got, want, "a list entry is addressed exactly by the spellings that are indices under the options of the call")
+				} else {
+					rep.okIdeal()
+					rep.class("list-read:" + map[bool]string{true: "entry", false: "missing"}[want != "missing"])
+				}
+			}
 		}
 		// the rule holds where a name is READ, too: a config that holds BOTH a setting NAMED by the spelling (stored
 		// under EnableNumKeys) and a list entry at the spelling's value is unpacked into struct{ F string `config:"<spelling>"` }
